@@ -7,6 +7,7 @@ use std::hash::Hash;
 use std::io::{ErrorKind, SeekFrom};
 use std::iter::Sum;
 use std::ops::{Add, AddAssign, BitXor, Deref, Mul, Sub, SubAssign};
+use std::time::SystemTime;
 use std::{fs, io};
 
 use byte_unit::Byte;
@@ -309,11 +310,14 @@ impl FileId {
 pub struct FileMetadata {
     id: FileId,
     metadata: fs::Metadata,
+    /// The time just before the metadata were read
+    read_at: SystemTime,
 }
 
 impl FileMetadata {
     pub fn new(path: &Path) -> io::Result<FileMetadata> {
         let path_buf = path.to_path_buf();
+        let read_at = SystemTime::now();
         let metadata = fs::metadata(path_buf).map_err(|e| {
             io::Error::new(
                 e.kind(),
@@ -324,7 +328,17 @@ impl FileMetadata {
         let id = FileId::from_metadata(&metadata);
         #[cfg(windows)]
         let id = FileId::new(&path)?;
-        Ok(FileMetadata { id, metadata })
+        Ok(FileMetadata {
+            id,
+            metadata,
+            read_at,
+        })
+    }
+
+    /// Returns the time these metadata were read at.
+    /// What is read from the file later than that can differ from what the metadata describe.
+    pub fn read_at(&self) -> SystemTime {
+        self.read_at
     }
 
     pub fn len(&self) -> FileLen {
